@@ -17,7 +17,7 @@ Lemma starting_stable fx s o m :
   ph s m = Starting -> o <> QStarted m -> ph (fst (step fx s o)) m = Starting.
 Proof.
   intros P N. destruct (Z.eq_dec (op_mode o) m) as [E|E]; [|rewrite ph_step_other; assumption].
-  destruct o; cbn [op_mode] in E; subst; cbn [step]; try rewrite P; cbn [fst ph]; try assumption; try congruence.
+  destruct o; cbn [op_mode] in E; subst; try (rewrite cbstarted_ph; assumption); cbn [step]; try rewrite P; cbn [fst ph]; try assumption; try congruence.
   - destruct (ph s m) eqn:Q; cbn; try assumption; try congruence.
     destruct fx; cbn; assumption.
   - destruct (cls_ok c && _); cbn; assumption.
@@ -27,7 +27,7 @@ Lemma stopping_stable fx s o m :
   ph s m = Stopping -> o <> QStopped m -> ph (fst (step fx s o)) m = Stopping.
 Proof.
   intros P N. destruct (Z.eq_dec (op_mode o) m) as [E|E]; [|rewrite ph_step_other; assumption].
-  destruct o; cbn [op_mode] in E; subst; cbn [step]; try rewrite P; cbn [fst ph]; try assumption; try congruence.
+  destruct o; cbn [op_mode] in E; subst; try (rewrite cbstarted_ph; assumption); cbn [step]; try rewrite P; cbn [fst ph]; try assumption; try congruence.
   - destruct fx; cbn; assumption.
   - destruct (cls_ok c && _); cbn; assumption.
 Qed.
@@ -36,7 +36,7 @@ Lemma winding_stable fx s o m :
   ph s m = Winding -> o <> CbStopped m -> is_start_of m o = false -> ph (fst (step fx s o)) m = Winding.
 Proof.
   intros P N S. destruct (Z.eq_dec (op_mode o) m) as [E|E]; [|rewrite ph_step_other; assumption].
-  destruct o; cbn [op_mode] in E; subst; cbn [step]; try rewrite P; cbn [fst ph]; try assumption; try congruence.
+  destruct o; cbn [op_mode] in E; subst; try (rewrite cbstarted_ph; assumption); cbn [step]; try rewrite P; cbn [fst ph]; try assumption; try congruence.
   - cbn in S. rewrite Z.eqb_refl in S. discriminate.
   - destruct (cls_ok c && _); cbn; assumption.
 Qed.
